@@ -345,6 +345,7 @@ fn check(a: &Args) -> i32 {
     }
     let mut sums: Vec<WorkerSummary> = vec![];
     let mut crashed = vec![];
+    let mut crashed_workers: Vec<usize> = vec![];
     for (i, k) in kids.into_iter().enumerate() {
         let o = k.wait_with_output().expect("wait");
         let text = String::from_utf8_lossy(&o.stdout).to_string();
@@ -353,7 +354,10 @@ fn check(a: &Args) -> i32 {
                 Ok(s) => sums.push(s),
                 Err(e) => crashed.push(format!("worker {}: bad summary: {}", i, e)),
             },
-            None => crashed.push(format!("worker {} died: {:?}", i, o.status)),
+            None => {
+                crashed.push(format!("worker {} died: {:?}", i, o.status));
+                crashed_workers.push(i);
+            }
         }
     }
     let mut tot = WorkerSummary::default();
@@ -431,6 +435,20 @@ fn check(a: &Args) -> i32 {
             }
             replay_paths.push(path);
         }
+        exit = 1;
+    }
+    // A worker process that dies (signal, abort) while running the real code is itself a memory-safety finding:
+    // the slice is deterministic, so re-running it is the replay.
+    if prop == "C14" && !crashed_workers.is_empty() && exit == 0 {
+        let dir = format!("{}/replays/{}", verif_root, prop);
+        std::fs::create_dir_all(&dir).ok();
+        let wi = crashed_workers[0];
+        let path = format!("{}/crash-worker-{}-of-{}.json", dir, wi, n);
+        let scale = a.get("scale").unwrap_or("1").to_string();
+        std::fs::write(&path, serde_json::to_string_pretty(&json!({"property": "C14", "crash_slice": {"tier": tier, "seed": seed, "worker": wi, "of": n, "scale": scale}, "what": crashed[0]})).unwrap()).ok();
+        println!("VIOLATION property=C14 replay={}", path);
+        println!("  the simulator process executing slice {}/{} died ({}): memory corruption in the code under test", wi, n, crashed[0]);
+        tot.violation_count += 1;
         exit = 1;
     }
     let fams = families::for_property(&prop);
@@ -534,7 +552,28 @@ fn check(a: &Args) -> i32 {
 
 fn replay(a: &Args) -> i32 {
     let path = a.pos.get(1).expect("replay <file>");
-    let rf: ReplayFile = serde_json::from_str(&std::fs::read_to_string(path).expect("read replay")).expect("parse replay");
+    let text = std::fs::read_to_string(path).expect("read replay");
+    if let Ok(v) = serde_json::from_str::<serde_json::Value>(&text) {
+        if let Some(c) = v.get("crash_slice") {
+            let exe = std::env::current_exe().unwrap();
+            let st = std::process::Command::new(exe)
+                .arg("worker").arg("--prop").arg("C14")
+                .arg("--tier").arg(c["tier"].as_str().unwrap_or("quick"))
+                .arg("--seed").arg(c["seed"].as_u64().unwrap_or(DEFAULT_SEED).to_string())
+                .arg("--worker").arg(c["worker"].as_u64().unwrap_or(0).to_string())
+                .arg("--of").arg(c["of"].as_u64().unwrap_or(1).to_string())
+                .arg("--scale").arg(c["scale"].as_str().unwrap_or("1"))
+                .stdout(std::process::Stdio::null()).status().expect("run slice");
+            if !st.success() {
+                println!("VIOLATION property=C14 replay={}", path);
+                println!("reproduced: the slice died again: {:?}", st);
+                return 1;
+            }
+            println!("NOT REPRODUCED: the slice ran to its end");
+            return 2;
+        }
+    }
+    let rf: ReplayFile = serde_json::from_str(&text).expect("parse replay");
     let spec = sim::RunSpec { prog: Arc::new(rf.program.clone()), strategy: StrategyKind::Uniform, sched_seed: 0, replay: Some(rf.overrides.clone()), sweep_fire_at: rf.sweep_fire_at, step_cap: STEP_CAP };
     let rep = sim::run_one(&spec);
     let verdict = oracle::analyse(&rep);
